@@ -34,4 +34,4 @@ require (
 	gopkg.in/yaml.v2 v2.4.0 // indirect
 )
 
-replace github.com/valinurovam/garagemq => /tmp/wt-mut-13252
+replace github.com/valinurovam/garagemq => /repo
